@@ -170,12 +170,25 @@ class LoadParameters(_NativeJudge, Contract):
     name = f"{TBS}.load_parameters"
     prop = ("C07",)
     top_level = True
-    descr = "reloading parameters installs the new tree and leaves no memoised view of the old one behind"
+    cases = (None, "with-a-preprocessing-hook", "the-preprocessing-hook-fails")
+    descr = ("reloading parameters installs the new tree (as the preprocessing hook returns it) and leaves no memoised view of the "
+             "old one behind; if the hook fails, the error reaches the caller and whatever tree the system then has, its memoised "
+             "views are views of that tree")
 
     def setup(self, I, ctx, case):
         w = SysWorld(I, ctx)
         install_memo(ctx, w, I)
-        return {"self": w.sys, "path_to_yaml_dir": "/some/dir", "__w": w}
+        if case is not None:
+            R = I.resolve_qualified
+            w.processed = Obj(R(PNODE), {"name": "", "children": DictVal()}, label="preprocessed-tree")
+
+            def hook(ctx2, params):
+                w.hook_saw = params
+                if case == "the-preprocessing-hook-fails":
+                    raise I.raise_exc("ValueError")
+                return w.processed
+            w.sys.fields["preprocess_parameters"] = Builtin("preprocess_parameters", hook)
+        return {"self": w.sys, "path_to_yaml_dir": "/some/dir", "__w": w, "__case": case}
 
     @staticmethod
     def local_contracts():
@@ -186,10 +199,16 @@ class LoadParameters(_NativeJudge, Contract):
 
     def post(self, I, ctx, a, out, old):
         w = a["__w"]
+        if a.get("__case") == "the-preprocessing-hook-fails":
+            cur = w.sys.fields.get("parameters")
+            return [("the-hook's-error-reaches-the-caller", out[0] == "raise" and out[1].cls.name == "ValueError")] + \
+                (memo_ok(I, ctx, w, w.sys, cur) if isinstance(cur, Obj) else [("the-system-still-has-a-tree", False)])
         if out[0] != "return":
             return [("no-exception", False)]
         new = w.sys.fields.get("parameters")
         res = [("new-tree-installed", isinstance(new, Obj) and new is not w.tree)]
+        if a.get("__case") == "with-a-preprocessing-hook":
+            res.append(("the-tree-installed-is-what-the-preprocessing-hook-returned", new is w.processed))
         if isinstance(new, Obj):
             res += memo_ok(I, ctx, w, w.sys, new)
         return res
